@@ -1291,17 +1291,39 @@ int safec_vsnprintf_s(out_fct_type out, const char *funcname, char *buffer,
             unsigned int l;
             if (flags & FLAGS_LONG) {
 #ifndef SAFECLIB_DISABLE_WCHAR
-                size_t len;
-                errno_t err;
                 const wchar_t *lp = va_arg(va, wchar_t *);
+                const wchar_t *wp;
+                mbstate_t st;
+                char mb[MB_LEN_MAX];
+                size_t need = 0;
+                const int saved_errno = errno;
                 if (!lp) {
                     char msg[80];
                     snprintf(msg, sizeof msg, "%s: %%ls arg is null", funcname);
                     invoke_safe_str_constraint_handler(msg, buffer, ESNULLP);
                     return -(ESNULLP);
                 }
-                l = wcsnlen_s(lp, precision ? precision : RSIZE_MAX_WSTR);
-                p = (char *)malloc(l + 1);
+                /* size of the multibyte result: whole characters only, at
+                   most precision bytes, and no wide character is looked at
+                   once the precision is used up */
+                memset(&st, 0, sizeof st);
+                for (wp = lp;
+                     (!(flags & FLAGS_PRECISION) || need < precision) && *wp;
+                     wp++) {
+                    const size_t mbn = wcrtomb(mb, *wp, &st);
+                    if (mbn == (size_t)-1) {
+                        char msg[80];
+                        snprintf(msg, sizeof msg,
+                                 "%s: wcrtomb for %%ls arg failed", funcname);
+                        errno = saved_errno; /* reported here */
+                        invoke_safe_str_constraint_handler(msg, buffer, EILSEQ);
+                        return -(EILSEQ);
+                    }
+                    if ((flags & FLAGS_PRECISION) && need + mbn > precision)
+                        break;
+                    need += mbn;
+                }
+                p = (char *)malloc(need + 1);
                 if (!p) {
                     char msg[80];
                     snprintf(msg, sizeof msg, "%s: malloc %%ls arg failed",
@@ -1309,16 +1331,11 @@ int safec_vsnprintf_s(out_fct_type out, const char *funcname, char *buffer,
                     invoke_safe_str_constraint_handler(msg, buffer, 1);
                     return -1;
                 }
-                err = wcstombs_s(&len, p, l + 1, lp, l);
-                if (err != EOK) {
-                    char msg[80];
-                    snprintf(msg, sizeof msg,
-                             "%s: wcstombs_s for %%ls arg failed", funcname);
-                    invoke_safe_str_constraint_handler(msg, buffer,
-                                                       RCNEGATE(err));
-                    free(p);
-                    return -(err);
-                }
+                memset(&st, 0, sizeof st);
+                l = 0;
+                for (wp = lp; l < need; wp++)
+                    l += (unsigned int)wcrtomb(p + l, *wp, &st);
+                p[l] = '\0';
 #else
                 {
                     char msg[80];
